@@ -516,11 +516,11 @@ macro_rules! wakeups {
     };
 }
 
-//@ {"p":"C17","tier":"quick","clause":"schedule_sync_wakeups, 2 transfers: InfeasibleTransfer(first id with broadcast <= anchor+1) iff one exists; otherwise every transfer is covered exactly once, at a height inside [max(min(anchor+margin', deadline), tip), broadcast-1] (= tip if overdue), heights strictly increasing and >= tip, and the number of wake-ups equals the brute-force minimum piercing number","bounds":"2 transfers; anchors, broadcast heights, tip, settle margin, jitter cap all symbolic in u32","assume":"stub: private gen_index returns an arbitrary value < bound (its contract)","covers":3,"t":900}
+//@ {"p":"C17","tier":"experimental","clause":"schedule_sync_wakeups, 2 transfers: InfeasibleTransfer(first id with broadcast <= anchor+1) iff one exists; otherwise every transfer is covered exactly once, at a height inside [max(min(anchor+margin', deadline), tip), broadcast-1] (= tip if overdue), heights strictly increasing and >= tip, and the number of wake-ups equals the brute-force minimum piercing number","bounds":"2 transfers; anchors, broadcast heights, tip, settle margin, jitter cap all symbolic in u32","assume":"stub: private gen_index returns an arbitrary value < bound (its contract)","covers":3,"t":1800,"unwindset":{"core::slice::sort.*":4,"fn:core::slice::sort":2}}
 wakeups!(c17_wakeups_2, 2);
-//@ {"p":"C17","tier":"quick","clause":"same, 1 transfer","bounds":"1 transfer, all heights/params symbolic","assume":"stub: gen_index arbitrary < bound","covers":1,"t":600}
+//@ {"p":"C17","tier":"experimental","clause":"same, 1 transfer","bounds":"1 transfer, all heights/params symbolic","assume":"stub: gen_index arbitrary < bound","covers":1,"t":1200,"unwindset":{"core::slice::sort.*":4,"fn:core::slice::sort":2}}
 wakeups!(c17_wakeups_1, 1);
-//@ {"p":"C17","tier":"thorough","clause":"same, 3 transfers (all overlap patterns of three windows)","bounds":"3 transfers, all heights/params symbolic","assume":"stub: gen_index arbitrary < bound","covers":3,"t":3600}
+//@ {"p":"C17","tier":"experimental","clause":"same, 3 transfers (all overlap patterns of three windows)","bounds":"3 transfers, all heights/params symbolic","assume":"stub: gen_index arbitrary < bound","covers":3,"t":5400,"unwindset":{"core::slice::sort.*":4,"fn:core::slice::sort":2}}
 wakeups!(c17_wakeups_3, 3);
 
 // ------------------------------------------------------------------------------------------ labels
